@@ -961,6 +961,18 @@ func TestC17(t *testing.T) {
 			pl.planPlonk(j.rn, j.commit, j.widx)
 		}
 	})
+	// adaptive adversary against the KZG batching randomness (2-chain)
+	kzgAdv := only == "" || only == "2chain"
+	if kzgAdv {
+		rn := chains()[0]
+		pl.planKzg(rn, 2)
+		pl.planKzg(rn, 3)
+		pl.planPlonkKzg(rn, commitNone)
+		if r.Thorough() {
+			pl.planPlonkKzg(rn, commitMixed)
+			pl.planPlonkKzg(rn, commitTwo)
+		}
+	}
 	// deterministic order; expensive (emulated, compiled) cases first
 	sort.SliceStable(pl.cases, func(a, b int) bool {
 		ca, cb := pl.cases[a], pl.cases[b]
@@ -1013,6 +1025,14 @@ func TestC17(t *testing.T) {
 		}
 		r.Require(ch+".groth16.agree.both-reject.class.torsion-shift", 1)
 		r.Require(ch+".groth16.agree.both-reject.class.surplus-commitment-forgery", 1)
+	}
+	if kzgAdv {
+		r.Require("2chain.kzg.gadget-r-reproduced-natively", 2)
+		r.Require("2chain.plonk.kzg-gadget-r-reproduced-natively", 3)
+		r.Require("2chain.kzg.agree.both-accept.class.genuine", 2)
+		r.Require("2chain.kzg.agree.both-reject.class.coordinated-forgery", 16)
+		r.Require("2chain.plonk.agree.both-reject.class.coordinated-forgery", 8)
+		r.Require("2chain.plonk.agree.both-reject.class.coordinated-forgery(openings-tampered-after-PrepareVerification)", 6)
 	}
 	if r.Thorough() {
 		for _, ch := range chainsRun {
